@@ -272,6 +272,19 @@ class C08(Check):
                                 f'calculator={val!r} reference={want!r} (restrained={s_r!r} nearest={s_n!r} '
                                 f'k={k}) rel={rel_diff(val, want):.3e}')
                 R.add('max_rel_diff_ref_e18', int(min(rel_diff(val, want), 1.0) * 1e18))
+            # -- no restraints given as the default argument (None) instead of an empty list ----
+            if not restr and only in (None, 'default-arg'):
+                d = dict(base, sub='default-arg')
+                try:
+                    v0 = float(Chi2Calculator(fixed.copy(), mc.copy())(me.copy()))
+                except Exception as exc:
+                    R.case(d, nontrivial=True, outcome='exception', cls=tag + '/default-arg')
+                    R.violation(f'chi2/{path}/exception', d, repr(exc))
+                else:
+                    R.case(d, nontrivial=want > 0, cls=tag + '/default-arg')
+                    if not (rel_diff(v0, want) <= TOL_REF):
+                        R.violation(f'chi2/{path}/differs-from-reference', d,
+                                    f'calculator={v0!r} reference={want!r} k={k}')
             if (c, e) not in wide and only is None:
                 continue
             # -- rigid motions applied to both sets --------------------------------
